@@ -21,6 +21,11 @@ class FakePool:
         return _FakeTask(fn(*args, **(kwargs or {})))
 
 
+def _unset(a):
+    """Not fitted yet: None, or what np.copy(None) makes of it in a deep copy (a 0-d object array)."""
+    return a is None or (isinstance(a, np.ndarray) and a.dtype == object)
+
+
 def _mutables(model):
     """ids of every mutable object reachable from a model state that C13's deep copy must not share."""
     ids = set()
@@ -65,11 +70,16 @@ def sequence(job):
     def fresh_spd():
         uniq[0] += 1.0
         return np.eye(2) * (1.0 + uniq[0] / 1000.0)
-    for c in m0.clusters:                      # real arrays instead of None, pairwise distinct
-        c.empirical_covariance = fresh_spd()
-        c.stacked_data_mean = np.zeros(2) + uniq[0]
-        c.train_inverse = fresh_spd()
-        c.computed_covariance = fresh_spd()
+    # two kinds of initial state: fully fitted (real arrays, pairwise distinct), or FRESH as the main loop creates it -
+    # labels assigned, nothing fitted yet (every array None), so that the early life of a state (labels only; statistics
+    # but no MRF yet) is copied and fitted too
+    fresh = rng.random() < 0.4
+    if not fresh:
+        for c in m0.clusters:
+            c.empirical_covariance = fresh_spd()
+            c.stacked_data_mean = np.zeros(2) + uniq[0]
+            c.train_inverse = fresh_spd()
+            c.computed_covariance = fresh_spd()
     handles = [m0]
     clean = True                               # only phases / deep copies so far (plus assignment on fresh states)
     events = []
@@ -87,6 +97,12 @@ def sequence(job):
         hi = rng.randrange(len(handles))
         h = handles[hi]
         sizes = [len(c.member_points) for c in h.clusters]
+        no_stats = any(_unset(c.empirical_covariance) for c in h.clusters)
+        no_mrf = any(_unset(c.train_inverse) or _unset(c.computed_covariance) for c in h.clusters)
+        if (no_stats and op not in ("phase_stats", "deep_copy", "set_labels", "shallow_copy")) or \
+                (no_mrf and op in ("phase_relabel", "phase_repop")) or \
+                (op == "mutate" and (no_stats or no_mrf)):
+            op = rng.choice(["phase_stats", "deep_copy"] + (["phase_opt"] if not no_stats else []))
         try:
             if op == "set_labels":
                 u = rng.random()
@@ -120,7 +136,7 @@ def sequence(job):
                 handles.append(cluster_maintenance.update_all_cluster_statistics(h, data))
                 log({"op": op, "h": hi + 1})
             elif op == "phase_opt":
-                if any(c.empirical_covariance is None for c in h.clusters):
+                if any(_unset(c.empirical_covariance) for c in h.clusters):
                     continue
                 handles.append(graphical_lasso.optimize_markov_random_fields(h, data, pool))
                 log({"op": op, "h": hi + 1})
